@@ -177,6 +177,8 @@ def val(x):
     return (type(x).__name__, tuple(val(v) for v in x))
   if hasattr(x, 'dtype'):
     a = np.asarray(x)
+    if a.dtype.kind == 'f':
+      a = a + a.dtype.type(0)  # -0.0 == +0.0 (x + 0 perturbation turns -0.0 into +0.0)
     return ('arr', str(a.dtype), a.shape, a.tobytes())
   return ('v', repr(x))
 
